@@ -17,8 +17,8 @@ EXPLANATION = ("Props/C07.v (all closed under the global context): klae_enc_soun
                "extends to a satisfying assignment with Err = the absolute errors (objective = declarative error); err_fits_bound + wmax_no_loss — clipping "
                "weights at max f never increases any error and makes all errors fit, so the bound k*max f loses nothing: LP optimum = declarative minimum "
                "(relative to the solver specification of DESIGN §4; precondition weight_type(max f) = max f, i.e. no truncation by int()). "
-               "klae_reported_objective_unscaled: get_objective_value (plain sum of Err) equals the solver objective when every scale is 1; "
-               "klae_objective_refuted: with error_scaling it does not (witness, open finding klae_objective_unscaled). "
+               "klae_reported_objective: get_objective_value of the code as it is (errors weighed by their scaling, /repo 158493f) equals the solver objective for every scaling; klae_objective_old_refuted documents the old plain-sum behaviour. "
+               ""
                "Completeness is stated for instances without subpath constraints and for paths given as unit flows (10a/10c); cyclic class: E2 only. "
                "Tie: E1 per instance over the option space; E2 recomputation on every answer, exhaustive optimum (Python search side, exact Fractions) on tiny instances.")
 ASSUMPTIONS = ["HiGHS status kOptimal => returned assignment satisfies the rows within 1e-9 and is optimal (solver specification, DESIGN §4)",
@@ -27,8 +27,6 @@ ASSUMPTIONS = ["HiGHS status kOptimal => returned assignment satisfies the rows 
 TRUSTED = ["models: coq/theories/ErrEnc.v (+ PathEnc.v, Blocks.v); wire/colkeys harness/e1err.py; LP read-back harness/lpdump.py",
            "E2 oracle side: harness/errlib.py brute force and harness/props.py recomputation (plain Python, exact Fractions)"]
 
-K_OBJ = "klae_objective_unscaled"
-K_DROP = "node_mode_single_node_path_dropped"
 K_CAP = "cycles_rep_cap_from_reachable_max"
 
 
@@ -50,9 +48,8 @@ def check_solution(ctx, cls, args, m, exact, eng="E2_recompute"):
     routes, weights = sol[rk], sol["weights"]
     dropped = errlib.dropped_single_node_routes(cls, args, sol, full)
     if dropped and any(abs(w) > 1e-9 for _, w in dropped):
-        # the user-visible answer lost a weighted route; evaluate the clauses on the unfiltered answer instead
-        ctx.report(f"{cls} (node weights): get_solution() drops the single-node route(s) {dropped} with their weights", rep, key=K_DROP)
-        routes = [r for r in full[rk] if len(r) >= 1]; weights = [w for r, w in zip(full[rk], full["weights"]) if len(r) >= 1]
+        ctx.report(f"{cls} (node weights): get_solution() drops the single-node route(s) {dropped} with their weights", rep)
+        return None
     obj, errs = props.lae_objective(G, args["flow_attr"], routes, weights, origin, ign, sc, exact)
     conv = (lambda x: x) if origin == "edge" else (lambda x: (x + ".0", x + ".1"))
     rep_err = sol["edge_errors"]
@@ -72,9 +69,7 @@ def check_solution(ctx, cls, args, m, exact, eng="E2_recompute"):
     ctx.count(eng, "errors_and_solver_objective_recomputed_ok")
     ro = m.get_objective_value()
     if abs(ro - float(obj)) > 1e-6 * (len(errs) + 1):
-        unscaled = sum(float(v) for v in errs.values())
-        key = K_OBJ if (scaled_lt1(args) and abs(ro - unscaled) <= 1e-6 * (len(errs) + 1)) else None
-        ctx.report(f"{cls}: get_objective_value() = {ro} but the (scaled) objective of the returned solution is {obj} (solver: {so})", rep, key=key)
+        ctx.report(f"{cls}: get_objective_value() = {ro} but the (scaled) objective of the returned solution is {obj} (solver: {so})", rep)
     else:
         ctx.count(eng, "reported_objective_ok")
     try:
@@ -82,9 +77,7 @@ def check_solution(ctx, cls, args, m, exact, eng="E2_recompute"):
     except Exception as e:
         ctx.report(f"{cls}: is_valid_solution() raised {e!r} on the model's own optimum", rep); valid = True
     if not valid:
-        # the only known reason: the objective comparison inside is_valid_solution uses the unscaled sum
-        key = K_OBJ if (scaled_lt1(args) and abs(ro - so) > 0.001 * getattr(m, "original_k", m.k)) else None
-        ctx.report(f"{cls}: is_valid_solution() rejects the model's own optimal solution", rep, key=key)
+        ctx.report(f"{cls}: is_valid_solution() rejects the model's own optimal solution", rep)
     else:
         ctx.count(eng, "is_valid_solution_accepts")
     return so
@@ -227,7 +220,7 @@ def G_has_cycle(G):
 
 
 def witness_12(ctx):
-    """the witness of klae_objective_refuted replayed on the implementation on every run"""
+    """the witness of klae_objective_old_refuted (fixed by /repo 158493f) replayed on the implementation on every run"""
     import flowpaths as fp
     G = nx.DiGraph(); G.add_edge("a", "b", flow=2); G.add_edge("b", "c", flow=0)
     args = dict(G=G, flow_attr="flow", k=1, weight_type=int, error_scaling={("b", "c"): 0.5}, solver_options=dict(errlib.SOLVER))
